@@ -3,6 +3,7 @@
    CliProofs (the per-file loops), LinearRoundTrip (C12) and PathBenign (C16).  Every statement is
    for any layer combination, any compressor with a left inverse, any recipients, any candidate
    key list holding one recipient's key, any cutting of the data between the layers. *)
+From MLA Require Import Limit.
 From MLA Require Import Base Stream Blocks Writer Reader RoundTripBlocks RoundTripWriter RoundTripReader RoundTrip
   CompLayer EncLayer Format Ecies Archive ArchiveProofs LinearRoundTripDefs LinearProofs LinearRoundTrip
   Path PathProofs PathBenign Tar Cli CliProofs.
@@ -17,6 +18,7 @@ Qed.
 
 Section CliArchive.
   Variables CHUNK TAG CIPHERBUF BLOCK LIMIT FNMAX : N.
+  Local Hint Extern 0 Limit => exact LIMIT : typeclass_instances.
   Variables TS TC TA TE : N.
   Variable H : bytes -> bytes.
   Variable order : footer -> footer.
